@@ -35,6 +35,7 @@ Expected(e) ==      \* the specification's action applied to the recorded pre-st
     [] e.op = "delprop"   -> [e.pre EXCEPT ![e.x] = RemoveProp(@, e.arg[1])]
     [] e.op = "togglereq" -> [e.pre EXCEPT ![e.x] = ToggleRequired(@, e.arg[1])]
     [] e.op = "moveprop"  -> [e.pre EXCEPT ![e.x] = MoveProp(@, e.arg[1], e.arg[2])]
+    [] e.op = "setpropdefault" -> [e.pre EXCEPT ![e.x] = SetPropDefault(@, e.arg[1], e.arg[2])]
     [] e.op = "setelems"  -> [e.pre EXCEPT ![e.x] = [@ EXCEPT !.elems = e.arg]]
     [] OTHER -> e.pre
 
